@@ -414,24 +414,28 @@ fn nak_case<const N: usize>(flag: FileSizeFlag) {
     }
     forget(r);
 }
-//# funcs=NegativeAcknowledgmentPDU::decode/encode,SegmentRequestForm::decode; bound=small flag, input lengths {8,16,17} (0 and 1 request, a truncated request), contents symbolic; stubs=S3
-#[kani::proof]
-#[kani::unwind(36)]
-#[kani::stub(std::fmt::format, fmt_stub)]
-fn c06_q_canon_nak_small() {
-    nak_case::<8>(FileSizeFlag::Small);
-    nak_case::<16>(FileSizeFlag::Small);
-    nak_case::<17>(FileSizeFlag::Small);
+macro_rules! nak_h {
+    ($name:ident, $n:expr, $flag:expr) => {
+        #[kani::proof]
+        #[kani::unwind(36)]
+        #[kani::stub(std::fmt::format, fmt_stub)]
+        fn $name() {
+            nak_case::<$n>($flag);
+        }
+    };
 }
-//# funcs=NegativeAcknowledgmentPDU::decode/encode; bound=large flag, input lengths {16,32} (0 and 1 request) and {15} (truncated scope); stubs=S3
-#[kani::proof]
-#[kani::unwind(36)]
-#[kani::stub(std::fmt::format, fmt_stub)]
-fn c06_q_canon_nak_large() {
-    nak_case::<15>(FileSizeFlag::Large);
-    nak_case::<16>(FileSizeFlag::Large);
-    nak_case::<32>(FileSizeFlag::Large);
-}
+//# funcs=NegativeAcknowledgmentPDU::decode/encode; bound=small flag, 8 symbolic octets (scope only, no request); stubs=S3
+nak_h!(c06_q_canon_nak_small_8, 8, FileSizeFlag::Small);
+//# funcs=NegativeAcknowledgmentPDU::decode/encode,SegmentRequestForm::decode; bound=small flag, 16 symbolic octets (one request); stubs=S3
+nak_h!(c06_q_canon_nak_small_16, 16, FileSizeFlag::Small);
+//# funcs=NegativeAcknowledgmentPDU::decode/encode; bound=large flag, 16 symbolic octets (scope only); stubs=S3
+nak_h!(c06_q_canon_nak_large_16, 16, FileSizeFlag::Large);
+//# funcs=NegativeAcknowledgmentPDU::decode/encode,SegmentRequestForm::decode; bound=small flag, 17 symbolic octets (a truncated second request); stubs=S3
+nak_h!(c06_t_canon_nak_small_17, 17, FileSizeFlag::Small);
+//# funcs=NegativeAcknowledgmentPDU::decode/encode; bound=large flag, 15 symbolic octets (truncated scope); stubs=S3
+nak_h!(c06_t_canon_nak_large_15, 15, FileSizeFlag::Large);
+//# funcs=NegativeAcknowledgmentPDU::decode/encode,SegmentRequestForm::decode; bound=large flag, 32 symbolic octets (one request); stubs=S3
+nak_h!(c06_t_canon_nak_large_32, 32, FileSizeFlag::Large);
 //# funcs=NegativeAcknowledgmentPDU::decode/encode; bound=input lengths {0,7,9,15,24} small and {0,17,31,33} large (2 requests, further truncation classes); stubs=S3
 #[kani::proof]
 #[kani::unwind(36)]
